@@ -6,6 +6,7 @@ directive @dq(n: Int = 1, t: Tag, p: P) on QUERY | MUTATION | SUBSCRIPTION | FIE
 directive @dqf on FIELD
 directive @dqo on QUERY
 directive @dr(must: Int!) on FIELD
+directive @darg on ARGUMENT_DEFINITION
 
 interface Node {
   id: ID!
@@ -70,6 +71,7 @@ type Query {
   matrix: [[Int!]]
   need(x: Int!, y: Int): Int
   lst(xs: [Int!], m: [[Int]], ps: [P]): Int
+  two(a: Int @darg, b: Int @darg, c: Int = 3 @darg): String
 }
 
 type Mutation {
@@ -77,6 +79,8 @@ type Mutation {
   set(v: String): A
   must: Int!
   other: B
+  many: [A!]
+  req: A!
 }
 
 type Subscription {
